@@ -210,10 +210,8 @@ func VerifC06_BlockingEndpoints(st any) {
 	writes := vCatalogWrites(s)
 	idx := uint64(10)
 	// history: 0..2 earlier writes (any of the family), then the write that arrives while parked
+	// (histories of two earlier writes: 90 000 paths, about an hour - not registered in any tier)
 	maxHist := 1
-	if verifrt.Thorough() {
-		maxHist = 2
-	}
 	nh := verifrt.Choice("history.len", maxHist+1)
 	for i := 0; i < nh; i++ {
 		idx += 10
